@@ -247,8 +247,13 @@ def bandVerdicts (args : List String) (res : Option (List String)) : List (Strin
                       | .ok bs => (match CFList.dec bs with | .ok l' => if l' == l then [] else [("C15", "cflist-not-decodable-to-same-values")] | _ => [("C15", "cflist-not-decodable-to-same-values")])
                       | _ => if cfg.family == .ism2400 then [("C15", "KNOWN:c15-ism2400-frequencies-not-encodable")] else [("C15", "cflist-not-encodable-by-mac-layer")])
                    | .masks ms =>
-                     let want := (chunks16 (b.up.length + 1) b.up).map maskOf
-                     (if ms == (if want.isEmpty then [0] else want) then [] else [("C15", "cflist-masks-differ-from-enabled-channels")]) ++
+                     -- stated bit by bit, not through the model's own mask builder: bit i of mask j <-> channel 16 j + i enabled,
+                     -- one mask per started block of 16 channels (a single empty mask for an empty plan), no other bit set
+                     let n := b.up.length
+                     let bitsOK := (List.range (ms.length * 16)).all fun k =>
+                       (ms.getD (k / 16) 0).getLsbD (k % 16) == (decide (k < n) && (b.up.getD k default).enabled)
+                     let countOK := ms.length == (if n == 0 then 1 else (n + 15) / 16)
+                     (if bitsOK && countOK then [] else [("C15", "cflist-masks-differ-from-enabled-channels")]) ++
                      (if ms.length ≤ 6 then [] else [("C15", "cflist-not-encodable-by-mac-layer")]))
                 | _ => [])
              | _ => [])
